@@ -57,8 +57,68 @@ def call_paths(prog):
     return out
 
 
+def wi_nested_case(seed, rng):
+    """A with-items task over sub-workflows in which one or two items fail;
+    the failed task of every failed sub-workflow is rerun, the requests are
+    issued at the same (virtual) time and the reruns take different time,
+    so that one sub-workflow finishes while the other is still running."""
+    n = rng.choice([2, 3, 3])
+    kind = rng.choice(['async', 'async', 'sync'])
+    sub = {'name': 'sub1', 'short': 'sub1', 'type': 'direct', 'lang': 'yaql',
+           'path_input': True, 'input': [{'x': 1}],
+           'tasks': [{'name': 'c0', 'body': {'kind': kind}}],
+           'output': {'r': ['res_of', 'c0']}}
+    sub.pop('output')
+    t0 = {'name': 't0', 'body': {'kind': 'wf', 'wf': 'sub1', 'input': {}},
+          'with_items': {'var': 'i', 'n': n,
+                         'list': ['const', list(range(n))]},
+          'on_success': [{'to': 't1'}]}
+    if rng.random() < 0.4:
+        t0['concurrency'] = rng.randint(1, n)
+    main = {'name': 'main', 'short': 'main', 'type': 'direct',
+            'lang': 'yaql', 'path_input': False, 'input': [{'x': 1}],
+            'tasks': [t0, {'name': 't1', 'body': {'kind': 'sync'}}]}
+    prog = {'workflows': [main, sub], 'workbook': None}
+    case = runner.default_case()
+    case['seed'] = seed
+    case['prog'] = prog
+    case['feats'] = ['subwf', 'with_items']
+    case['defs'] = gen.render_program(prog)
+    case['starts'] = [{'wf': 'main', 'input': {'x': 1}, 'params': {}}]
+    case['outcome_seed'] = seed
+    case['p_err'] = 0.0
+    failing = sorted(rng.sample(range(n), rng.choice([1, 2, 2])))
+    case['outcomes'] = {}
+    case['async_delays'] = {}
+    for j, i in enumerate(failing):
+        tag = 'main.t0[%d].c0' % i
+        case['outcomes']['%s/0' % tag] = [['err', 'boom'], ['ok', 'fixed%d'
+                                                            % i],
+                                          ['ok', 'fixed-again']]
+        case['async_delays'][tag] = rng.choice([0, 3, 40]) if j == 0 \
+            else rng.choice([0, 3, 90])
+    progcase.swarm_config(rng, case)
+    case['config']['subwf_via_rpc'] = False
+    same_time = rng.random() < 0.6
+    ops = []
+    for j in range(len(failing)):
+        ops.append({'op': 'rerun', 'reset': True,
+                    'target': {'state': 'ERROR', 'name': 'c0', 'wf': 'sub1',
+                               'index': 0 if not same_time else j},
+                    'at_step': 5000 if same_time else 5000 + 100 * j})
+    case['ops'] = ops
+    case['kind'] = 'wi_nested'
+    case['fail'] = {'wf': 'sub1', 'task': 'c0', 'item': 0, 'n_fail': 1,
+                    'items': failing, 'n': n}
+    case['settle'] = 30
+    case['max_steps'] = 12000
+    return case
+
+
 def make_case(seed, tier):
     rng = random.Random(seed)
+    if rng.random() < 0.08:
+        return wi_nested_case(seed, rng)
     hold = False
     for attempt in range(40):
         want_nested = rng.random() < 0.4
@@ -386,9 +446,66 @@ def evaluate(case, res):
                                                for o in ok_ops))),
                            sorted(stuck)[:6]), sig + ' not_finished'))
             return out
+    kind = case.get('kind')
+    if kind == 'wi_nested' and len(ok_ops) == len(case['fail']['items']):
+        # every failed item was rerun and its new attempt succeeds: the
+        # with-items task ends SUCCESS with one accepted SUCCESS execution
+        # per item, not before the last of them, and the run goes on
+        t0 = [t for t in snap['task'].values() if t['name'] == 't0' and
+              not snap['wf'][t['workflow_execution_id']]
+              ['task_execution_id']]
+        root = [w for w in snap['wf'].values()
+                if not w['task_execution_id']]
+        subs = [w for w in snap['wf'].values()
+                if t0 and w['task_execution_id'] == t0[0]['id']]
+        msgs = []
+        if not root or root[0]['state'] != 'SUCCESS':
+            msgs.append('root is %s' % (root[0]['state'] if root else None))
+        if not t0 or t0[0]['state'] != 'SUCCESS':
+            msgs.append('with-items task is %s' % (
+                t0[0]['state'] if t0 else None))
+        per = {}
+        for w in subs:
+            if w['accepted']:
+                i = (w['runtime_context'] or {}).get('index', 0)
+                per.setdefault(i, []).append(w['state'])
+        for i in range(case['fail']['n']):
+            if per.get(i) != ['SUCCESS']:
+                msgs.append('item %d has accepted executions %s' % (
+                    i, per.get(i)))
+        n_t1 = sum(1 for t in snap['task'].values() if t['name'] == 't1')
+        if n_t1 != 1:
+            msgs.append('follow-up t1 ran %d times' % n_t1)
+        # the task completes only after every item has completed
+        if t0:
+            t_done = None
+            sub_done = {}
+            sub_ids = set(w['id'] for w in subs)
+            for cno, step, actor, changes in hist.iterate():
+                for table, id_, old, new in changes:
+                    if new is None:
+                        continue
+                    if table == trace.TASK and id_ == t0[0]['id'] and \
+                            new.get('state') in trace.TASK_DONE and \
+                            (old or {}).get('state') not in trace.TASK_DONE:
+                        t_done = cno
+                    if table == trace.WF and id_ in sub_ids and \
+                            new.get('state') in trace.TERMINAL and \
+                            (old or {}).get('state') not in trace.TERMINAL:
+                        sub_done[id_] = cno
+            late = [lab.any(i) for i, c in sub_done.items()
+                    if t_done is not None and c > t_done]
+            if late:
+                msgs.append('the with-items task completed (commit %s) '
+                            'before its items %s' % (t_done, sorted(late)))
+        if msgs:
+            out.append(('C12.outcome_vs_ref',
+                        'with-items over sub-workflows, items %s rerun: %s'
+                        % (case['fail']['items'], '; '.join(msgs)),
+                        sig + ' wi_nested'))
+        return out
     # --- final outcome vs the reference "as if the new result had been the
     # first" (plain failing task, legal single rerun / skip)
-    kind = case.get('kind')
     if kind in ('rerun', 'skip', 'rerun_twice') and ok_ops and fail:
         wfast = [w for w in case['prog']['workflows']
                  if w['name'] == fail['wf']][0]
@@ -461,6 +578,7 @@ def probes(case, res):
                                 case['prog']['workflows'][0]['name']))
     p['hold_branch'] = int(bool(case.get('hold')))
     p['handled_variant'] = int(bool(case.get('handled')))
+    p['wi_nested'] = int(case.get('kind') == 'wi_nested')
     p['error_routes_ran'] = int(bool(res.extra.get('error_routes_ran')))
     p['final_success'] = int(any(
         w['state'] == 'SUCCESS' and not w['task_execution_id']
